@@ -98,6 +98,10 @@ def run(ctx) -> None:
     bmadx_corr.run_c03(ctx)
     bmadx_jacobians(ctx, ctx.n(24, 600))
     vector_maps(ctx, ctx.n(24, 600))
+    import context_probes as CP
+    # the map that reaches the beam is the map of the element as it is now (an element re-tuned between two passes of the
+    # same beam object): a stale map with a fresh energy gain breaks the E_in/E_out area law
+    CP.retune_probe(ctx, "C03", ctx.n(18, 400))
 
 
 VEC_KINDS = ["Quadrupole", "Dipole", "RBend", "Solenoid", "HorizontalCorrector", "VerticalCorrector", "Drift", "Undulator"]
@@ -226,6 +230,10 @@ def replay(ctx, data) -> bool:
         return bool(rep.failures)
     if r.get("kind") == "vector_map":
         vector_case(rep, r)
+        return bool(rep.failures)
+    if r.get("kind") == "retune":
+        import context_probes as CP
+        CP.retune_case(rep, "C03", r)
         return bool(rep.failures)
     check_linear(rep, r["params"], r["energy"], E.real_map(E.build(r["params"]), r["energy"]))
     return bool(rep.failures)
